@@ -10,6 +10,7 @@ constant computed here from `pmutt.constants.R` (and, for per-mass units, the co
 `pmutt.constants.atomic_weight` and the mass entries of `convert_unit`) - never through
 `pmutt._get_R_adj`.
 """
+import copy
 import inspect
 import itertools
 
@@ -44,17 +45,30 @@ ENTROPY_LIKE = ['Cv', 'Cp', 'S']
 ENERGY_LIKE = ['U', 'E', 'H', 'F', 'G']
 T_SCALAR = 500.0
 T_DEFAULT = 298.15
-T_VALUES = {'T500': 500.0, 'T298': 298.15, 'arr1': [500.0], 'arr3': [300.0, 500.0, 1800.0]}
+T_VALUES = {'T500': 500.0, 'T298': 298.15, 'arr1': [500.0], 'arr3': [300.0, 500.0, 1800.0],
+            # added after the seeded changes (see notes): integer-typed, unsorted, repeated, list, seam temperatures
+            'Tint': 500,                                   # python int
+            'desc3': [1800.0, 500.0, 300.0],               # descending float array
+            'mix5': [500.0, 1800.0, 300.0, 1800.0, 500.0],  # unsorted with repeated entries
+            'int3': [300, 500, 1800],                      # integer-dtype array
+            'list3': [1800.0, 300.0, 500.0],               # a python list (not an ndarray), unsorted
+            'seam3': [1000.0, 1610.97, 300.0]}             # the segment boundaries of the Nasa9 / Nasa instances, unsorted
+T_ARRAYS_NEW = ['desc3', 'mix5', 'int3', 'list3', 'seam3']
+T_SIG = {'arr1': 'array', 'arr3': 'array', 'Tdef': 'default', 'Tint': 'scalar-int', 'desc3': 'array-unsorted',
+         'mix5': 'array-unsorted', 'seam3': 'array-unsorted', 'int3': 'array-int', 'list3': 'list'}
+T_TAG = {'arr1': 'T:array1', 'arr3': 'T:array3', 'Tint': 'T:scalar-int', 'desc3': 'T:array-descending',
+         'mix5': 'T:array-unsorted-repeated', 'seam3': 'T:array-seam', 'int3': 'T:array-int', 'list3': 'T:list'}
 
 KINDS = ['mode', 'species', 'empirical', 'reaction']
 INSTANCES = {
     'mode': ['HarmonicVib', 'FreeTrans', 'QRRHOVib', 'EinsteinVib', 'DebyeVib', 'RigidRotor',
              'GroundStateElec', 'EmptyNucl', 'EmptyMode', 'ConstantMode', 'LSR', 'PiecewiseCovEffect',
              'GasPressureAdj'],
-    'species': ['sm_gas', 'sm_ads', 'sm_ref', 'sm_cov', 'sm_noel', 'sm_const'],
-    'empirical': ['nasa_gas', 'nasa_surf', 'nasa_noel', 'nasa9_gas', 'shomate_gas', 'shomate_surf'],
+    'species': ['sm_gas', 'sm_ads', 'sm_ref', 'sm_cov', 'sm_noel', 'sm_const', 'sm_int'],
+    'empirical': ['nasa_gas', 'nasa_surf', 'nasa_noel', 'nasa9_gas', 'shomate_gas', 'shomate_surf',
+                  'nasa_plain', 'nasa9_plain', 'shomate_plain', 'shomate_int'],
     'reaction': ['rxn_sm_ts', 'rxn_sm', 'rxn_nasa', 'rxn_mixed', 'rxn_bep', 'chemkin_ts', 'chemkin',
-                 'surf_ts', 'surf', 'chemkin_ts_low', 'surf_ts_low'],
+                 'surf_ts', 'surf', 'chemkin_ts_low', 'surf_ts_low', 'rxn_int_ts'],
 }
 QUANTITIES = {
     'mode': ['H', 'Cv', 'Cp', 'U', 'S', 'F', 'G'],
@@ -85,24 +99,61 @@ def _base(kind):
 def _alts(kind):
     a = dict(inst=INSTANCES[kind][1:], q=QUANTITIES[kind][1:],
              unit=[u for u in UNITS[kind] if u != BASE_UNIT],
-             T=['T298', 'Tdef'] + (['arr1', 'arr3'] if kind == 'empirical' else []),
-             P=[0.1, 30.0], x=[0.3], sel=[True], uref=[False], verb=[True], zpe=[True], kw=[True])
+             T=['T298', 'Tdef', 'Tint'] + (['arr1', 'arr3'] + T_ARRAYS_NEW if kind == 'empirical' else []),
+             P=[0.1, 30.0, 2], x=[0.3, 0.0], sel=[True], uref=[False], verb=[True], zpe=[True], kw=[True])
     if kind == 'reaction':
-        a.update(form=FORMS[1:], rev=[True], act=[True], delm=[2])
+        # del_m: 2 and 0 explicit numbers, 'None' = None passed explicitly (the library then derives the
+        # molecularity change itself); the axis value None means the argument is omitted (default 1)
+        a.update(form=FORMS[1:], rev=[True], act=[True], delm=[2, 0, 'None'])
     return a
 
 
 DEVIATIONS = {'quick': 3, 'thorough': 5}
+
+# ---- histories with two objects in one process (added after the seeded changes).  A case is
+# (how, A, B, quantity, form, unit); the sequence is A, B, A again - each value against the object's OWN
+# dimensionless twin and composition - then A.elements is edited in place and A is asked once more.
+COMPOSED = [i for i in INSTANCES['species'] + INSTANCES['empirical'] if i not in ('sm_noel', 'nasa_noel')]
+PAIR_GROUPS = {'composition': COMPOSED, 'reaction': INSTANCES['reaction'], 'mode': INSTANCES['mode']}
+PAIR_QUANTITIES = {'composition': QUANTITIES['empirical'], 'reaction': QUANTITIES['reaction'],
+                   'mode': QUANTITIES['mode']}
+PAIR_FORMS = {'composition': ['plain'], 'mode': ['plain'], 'reaction': ['delta', 'act']}
+PAIR_HOW = ['separate', 'deepcopy-edit', 'dict-edit']       # the last two for the composition group only
+PAIR_UNITS = {
+    'quick': {'composition': ['kJ/mol/K', 'J/g/K', 'cal/kg/K', 'eV/K'], 'reaction': ['kJ/mol/K', 'eV/K'],
+              'mode': ['kJ/mol/K', 'eV/K']},
+    'thorough': {'composition': R_KEYS + PER_MASS_SHORT + ['cal/kg/K', 'L atm/lbs/K', 'kcal/amu/K'],
+                 'reaction': R_KEYS, 'mode': R_KEYS},
+}
+
+
+def _gen_pairs(tier):
+    for group in ('composition', 'reaction', 'mode'):
+        insts = PAIR_GROUPS[group]
+        for how in PAIR_HOW:
+            if how != 'separate' and group != 'composition':
+                continue
+            others = [(a, b) for a in insts for b in insts if a != b] if how == 'separate' \
+                else [(a, a) for a in insts]
+            for a, b in others:
+                for q in PAIR_QUANTITIES[group]:
+                    for form in PAIR_FORMS[group]:
+                        for unit in PAIR_UNITS[tier][group]:
+                            yield dict(hist=how, a=a, b=b, q=q, form=form, unit=unit)
 N_SHARDS = 32
 
 PLANNED_TAGS = ['kind:mode', 'kind:species', 'kind:empirical', 'kind:reaction',
                 'unit:molar', 'unit:per-molecule', 'unit:per-mass',
                 'quantity:entropy-like', 'quantity:energy-like',
                 'T:scalar', 'T:default', 'T:array1', 'T:array3',
+                'T:scalar-int', 'T:array-descending', 'T:array-unsorted-repeated', 'T:array-seam', 'T:array-int',
+                'T:list', 'T:edited-in-place',
+                'hist:separate', 'hist:deepcopy-edit', 'hist:dict-edit', 'hist:same-element-set',
+                'hist:elements-edited-in-place',
                 'form:plain', 'form:state', 'form:delta', 'form:act',
                 'effective:P', 'effective:x', 'effective:S_elements', 'effective:use_references',
                 'effective:verbose', 'effective:include_ZPE', 'effective:kwblock', 'effective:rev',
-                'effective:act', 'effective:del_m',
+                'effective:act', 'effective:del_m', 'effective:del_m=None',
                 'refused:per-mass-without-composition', 'agree:both-forms-raise']
 
 
@@ -111,11 +162,18 @@ def bounds(tier):
                 instances=INSTANCES, quantities=QUANTITIES,
                 units=dict(table=R_KEYS, per_mass_species_and_empirical=len(PER_MASS),
                            per_mass_modes_and_reactions=PER_MASS_SHORT, mass_units=MASS_UNITS),
-                T=dict(T500=500.0, T298=298.15, Tdef='argument omitted', arr1=[500.0],
-                       arr3=[300.0, 500.0, 1800.0]),
-                P=[None, 0.1, 30.0], x=[None, 0.3], S_elements=[False, True], use_references=[True, False],
+                T=dict(T_VALUES, Tdef='argument omitted',
+                       note='int3 is an integer-dtype ndarray, list3 a python list, the other arrays float ndarrays'),
+                P=[None, 0.1, 30.0, 2], x=[None, 0.3, 0.0], S_elements=[False, True], use_references=[True, False],
                 verbose=[False, True], include_ZPE=[False, True], kwblock=[False, True],
-                reaction_forms=FORMS, rev=[False, True], act=[False, True], del_m=[None, 2],
+                reaction_forms=FORMS, rev=[False, True], act=[False, True],
+                del_m=['omitted', 2, 0, 'None passed explicitly'],
+                per_case_history=['the same call repeated after the first result was overwritten in place',
+                                  'arguments compared with a deep copy taken before the calls',
+                                  'array T reversed and edited in place, then the call repeated'],
+                pairs=dict(groups={g: v for g, v in PAIR_GROUPS.items()}, units=PAIR_UNITS[tier],
+                           how=PAIR_HOW, sequence='A, B, A again (each against its own twin), then A.elements '
+                                                  'edited in place and A once more'),
                 full_product='instance x quantity x unit (x form x rev x act) with default options',
                 option_sweep='instance x quantity (x form x rev x act) x T shape x one option away from the defaults, base unit',
                 shards=N_SHARDS)
@@ -182,6 +240,8 @@ def _gen(tier):
                             if _ndev(c, base) <= k or not _applicable(kind, c):
                                 continue
                             yield kind, c
+    for c in _gen_pairs(tier):
+        yield 'pair', c
 
 
 def shards(tier):
@@ -317,7 +377,32 @@ def build(name):
         m['kwblock'] = {'NH3_kwargs': {'P': 5.}}
         return StatMech(name='NH3', elements={'N': 1, 'H': 3}, q=1.5, Cv=1.1e-4, Cp=2.3e-4, U=-1., H=-0.9,
                         S=3.1e-4, F=-1.1, G=-1.2, **presets['constant']), m
+    if name == 'sm_int':
+        # every numeric parameter an integer (python int / integer lists)
+        m['elements'] = {'H': 2, 'O': 2}
+        m['kwblock'] = {'H2O2_kwargs': {'P': 5}}
+        return _gas('H2O2', {'H': 2, 'O': 2}, 34, [3600, 1400, 880], -18, [14, 1, 1], 2, 'nonlinear', spin=0), m
     # ---- empirical
+    if name == 'nasa_plain':
+        # a species WITHOUT attached models (misc_models is None) that has a composition
+        m['elements'] = {'H': 2, 'O': 1}
+        return _nasa('H2O', 'S', {'H': 2, 'O': 1}), m
+    if name == 'nasa9_plain':
+        m['elements'] = {'C': 1, 'O': 2}
+        m['kwblock'] = {'CO2_kwargs': {'P': 5.}}
+        nasas = [SingleNasa9(T_low=200., T_high=1000., a=np.array(CO2_A9[0])),
+                 SingleNasa9(T_low=1000., T_high=6000., a=np.array(CO2_A9[1]))]
+        return Nasa9(name='CO2', elements={'C': 1, 'O': 2}, phase='s', nasas=nasas), m
+    if name == 'shomate_plain':
+        m['elements'] = {'H': 2, 'O': 1}
+        return _shomate('H2O', 'S', {'H': 2, 'O': 1}), m
+    if name == 'shomate_int':
+        # integer-dtype coefficient array and integer temperature bounds
+        from pmutt.empirical.shomate import Shomate
+        m['elements'] = {'H': 2, 'O': 2}
+        m['kwblock'] = {'H2O2_kwargs': {'P': 5}}
+        return Shomate(name='H2O2', phase='G', elements={'H': 2, 'O': 2},
+                       a=np.array([30, 7, 7, -3, 1, -251, 223, -242]), T_low=250, T_high=2000), m
     if name == 'nasa_gas':
         m['elements'] = {'H': 2, 'O': 1}
         return _nasa('H2O', 'G', {'H': 2, 'O': 1}), m
@@ -346,6 +431,10 @@ def build(name):
         return Reaction(reactants=[_h2(), _o2()], reactants_stoich=[1., 0.5], products=[_h2o()],
                         products_stoich=[1.], transition_state=ts,
                         transition_state_stoich=[1.] if ts else None), m
+    if name == 'rxn_int_ts':
+        # integer stoichiometric coefficients: 2 H2 + O2 = 2 H2O through two transition-state species
+        return Reaction(reactants=[_h2(), _o2()], reactants_stoich=[2, 1], products=[_h2o()],
+                        products_stoich=[2], transition_state=[_h2o_ts()], transition_state_stoich=[2]), m
     if name == 'rxn_nasa':
         return Reaction(reactants=[_nasa('H2', 'G', {'H': 2}, shift=30000.),
                                    _nasa('O2', 'G', {'O': 2}, shift=29000.)],
@@ -483,13 +572,14 @@ def options(c, meta, base=False):
     if c['act']:
         o['act'] = True
     if c.get('delm') is not None:
-        o['del_m'] = c['delm']
+        o['del_m'] = None if c['delm'] == 'None' else c['delm']
     return o
 
 
 def deviating_options(c):
     b = _base('species')
-    return [OPTION_NAME[a] for a in OPTION_AXES if c[a] != b[a]]
+    return [OPTION_NAME[a] + ('=None' if a == 'delm' and c[a] == 'None' else '')
+            for a in OPTION_AXES if c[a] != b[a]]
 
 
 def signature(c):
@@ -497,7 +587,7 @@ def signature(c):
     return dict(cls=CLASS_OF.get(c['inst'], c['inst']), inst=c['inst'],
                 getter=getter_names(kind, c['q'], c['form'])[0], unit=unit_family(c['unit']),
                 opts='+'.join(deviating_options(c)) or 'none',
-                T='array' if c['T'].startswith('arr') else ('default' if c['T'] == 'Tdef' else 'scalar'))
+                T=T_SIG.get(c['T'], 'scalar'))
 
 
 def _differs(a, b):
@@ -548,17 +638,22 @@ def evaluate(c, ctx):
             twin_T, T_mult = {}, None
         ctx.tag('T:default')
     else:
-        T = T_VALUES[c['T']]
-        if isinstance(T, list):
-            T = np.array(T)
-            ctx.tag('T:array%d' % len(T))
-        else:
-            ctx.tag('T:scalar')
-        dim_T, twin_T, T_mult = {'T': T}, {'T': T}, T
+        T = make_T(c['T'])
+        ctx.tag(T_TAG.get(c['T'], 'T:scalar'))
+        # both forms receive the SAME object (one caller, one array); the multiplier is a private copy
+        dim_T, twin_T = {'T': T}, {'T': T}
+        T_mult = np.array(T, dtype=float) if isinstance(T, (list, np.ndarray)) else T
     if energy and T_mult is None:
         raise RuntimeError('energy getter without a T parameter: %s' % dim_name)
+    if c['T'] == 'list3' and getattr(dim, '__func__', dim).__qualname__.startswith('_ModelBase.'):
+        # the generic getters inherited from _ModelBase document `T : float`; a python list is only taken
+        # to the getters the empirical classes define themselves (documented `float or (N,) ndarray`, and
+        # their twins convert any iterable)
+        ctx.tag('inapplicable:list-T-for-a-float-T-getter')
+        return
 
     opts = options(c, meta)
+    args_before = copy.deepcopy((dim_T, opts))
     ctx.state(('case',) + tuple(str(c[a]) for a in AXES))
     ctx.trace()
     ctx.trans(_ndev(c, _base(kind)))
@@ -617,6 +712,21 @@ def evaluate(c, ctx):
              (' / molar mass' if fam == 'per-mass' else '')
     ok = ctx.close(clause, obs, exp, sig, c, rtol=1e-10, atol=0.0, scale=scale)
 
+    # ---- clause 6: the same call on the same object again gives the same value, also after the caller has
+    #      overwritten the container the first call returned (the result must be a fresh object)
+    if ok:
+        first = copy.deepcopy(obs)
+        _clobber(obs)
+        again = dim(units=u, **dim_T, **opts)
+        ctx.evals()
+        ctx.close('the same call repeated on the same object gives the same value', again, first, sig, c,
+                  rtol=1e-10, atol=0.0, scale=scale)
+        obs = first
+    # ---- clause 7: the caller's arguments are left alone
+    ctx.true("the caller's arguments are unchanged after the calls", _same(args_before, (dim_T, opts)), sig, c,
+             observed=None if _same(args_before, (dim_T, opts)) else repr((dim_T, opts))[:300],
+             expected=repr(args_before)[:300])
+
     interesting = (fam != 'molar' or c['T'] != 'T500' or kind == 'reaction')
 
     # ---- clause 2: two units differ by the conversion factor only
@@ -658,8 +768,185 @@ def evaluate(c, ctx):
     if interesting:
         ctx.nontrivial(tuple(str(c[a]) for a in AXES))
 
+    # ---- clause 8: an array argument edited in place between two calls: the value follows the new content
+    if ok and isinstance(dim_T.get('T'), (list, np.ndarray)):
+        T = dim_T['T']
+        if isinstance(T, list):
+            T.reverse()
+            T[0] = 650.0
+        else:
+            T[:] = T[::-1].copy()
+            T[0] = 650
+        T_new = np.array(T, dtype=float)
+        try:
+            nd_new = np.asarray(call_twin(twin, dict(twin_T, **opts)), dtype=float)
+            ctx.evals()
+        except Exception as e:
+            if not _in_pmutt(e):
+                raise
+            ctx.refuse('dimensionless twin raises %s after the in-place edit of T' % type(e).__name__)
+            return
+        factor_new = R * T_new if energy else R
+        obs_new = dim(units=u, **dim_T, **opts)
+        ctx.evals()
+        ctx.trans()
+        ctx.tag('T:edited-in-place')
+        ctx.close('an array edited in place between two calls gives the value for its new content', obs_new,
+                  nd_new * factor_new, sig, c, rtol=1e-10, atol=0.0,
+                  scale=(np.abs(nd_new) + 1.0) * np.abs(factor_new))
+
+
+def make_T(key):
+    v = T_VALUES[key]
+    if key == 'list3':
+        return list(v)
+    if key == 'int3':
+        return np.array(v, dtype=np.int64)
+    if isinstance(v, list):
+        return np.array(v, dtype=float)
+    return v
+
+
+def _clobber(x):
+    """Overwrite a returned container in place, as a caller that reuses the buffer would."""
+    if isinstance(x, np.ndarray) and x.flags.writeable and x.dtype.kind in 'fiu':
+        x[...] = 777
+    elif isinstance(x, list):
+        for i, v in enumerate(x):
+            if isinstance(v, (list, np.ndarray, dict)):
+                _clobber(v)
+            else:
+                x[i] = 777
+    elif isinstance(x, dict):
+        for k in list(x):
+            if isinstance(x[k], (list, np.ndarray, dict)):
+                _clobber(x[k])
+            else:
+                x[k] = 777
+    elif isinstance(x, tuple):
+        for v in x:
+            _clobber(v)
+
+
+def _same(a, b):
+    """Structural identity including container type and dtype."""
+    if type(a) is not type(b):
+        return False
+    if isinstance(a, np.ndarray):
+        return a.dtype == b.dtype and a.shape == b.shape and bool(np.all(a == b))
+    if isinstance(a, dict):
+        return list(a) == list(b) and all(_same(a[k], b[k]) for k in a)
+    if isinstance(a, (list, tuple)):
+        return len(a) == len(b) and all(_same(x, y) for x, y in zip(a, b))
+    return a == b
+
+
+# ------------------------------------------------- histories with two objects
+def _edit_after_creation(obj, elements):
+    """Edit a copy after it was made: same element set with other counts, and one parameter that moves
+    the dimensionless values.  Returns the new composition."""
+    new = {k: 2 * v for k, v in elements.items()}
+    obj.elements = new
+    cls = type(obj).__name__
+    if cls == 'Nasa':
+        for a in (obj.a_low, obj.a_high):
+            a[0] += 0.25
+            a[5] += 500.
+    elif cls == 'Nasa9':
+        for n in obj.nasas:
+            n.a[2] += 0.25
+    elif cls == 'Shomate':
+        obj.a[0] += 2
+        obj.a[5] += 3
+    elif cls == 'StatMech':
+        em = obj.elec_model
+        if hasattr(em, 'potentialenergy'):
+            em.potentialenergy -= 0.5
+        else:                               # the 'constant' preset: stored values
+            for attr, d in (('Cv', 1e-5), ('Cp', 1e-5), ('U', -.1), ('H', -.1), ('S', 1e-5), ('F', -.1), ('G', -.1)):
+                setattr(em, attr, getattr(em, attr) + d)
+    else:
+        raise RuntimeError('no edit defined for %s' % cls)
+    return new
+
+
+def signature_pair(c):
+    group = [g for g, v in PAIR_GROUPS.items() if c['a'] in v][0]
+    kind = kind_of(c['a'])
+    return dict(cls=CLASS_OF.get(c['a'], c['a']), inst=c['a'], other=CLASS_OF.get(c['b'], c['b']), hist=c['hist'],
+                getter=getter_names(kind, c['q'], c['form'])[0], unit=unit_family(c['unit']), group=group)
+
+
+def evaluate_pair(c, ctx):
+    how, q, form, unit = c['hist'], c['q'], c['form'], c['unit']
+    sig = signature_pair(c)
+    energy = q in ENERGY_LIKE
+    u = unit[:-2] if energy else unit
+    fam = unit_family(unit)
+    A, mA = build(c['a'])
+    elA = dict(mA['elements']) if mA['elements'] and kind_of(c['a']) in ('species', 'empirical') else None
+    if how == 'separate':
+        B, mB = build(c['b'])
+        elB = dict(mB['elements']) if mB['elements'] and kind_of(c['b']) in ('species', 'empirical') else None
+    else:
+        B = copy.deepcopy(A) if how == 'deepcopy-edit' else type(A).from_dict(A.to_dict())
+        elB = _edit_after_creation(B, elA)
+    ctx.state(('pair', how, c['a'], c['b'], q, form, unit))
+    ctx.trace()
+    ctx.tag('hist:' + how)
+    if elA and elB and sorted(elA) == sorted(elB) and elA != elB:
+        ctx.tag('hist:same-element-set')
+    ctx.tag('unit:' + fam)
+
+    def relation(obj, elements, clause):
+        kind = kind_of(c['a'] if obj is A else c['b'])
+        dim_name, nd_name = getter_names(kind, q, form)
+        dim, twin = getattr(obj, dim_name), getattr(obj, nd_name)
+        ctx.trans()
+        try:
+            nd = np.asarray(call_twin(twin, {'T': T_SCALAR}), dtype=float)
+            ctx.evals()
+        except Exception as e_nd:
+            if not (_in_pmutt(e_nd) or isinstance(e_nd, MissingArgument)):
+                raise
+            ctx.evals()
+            try:
+                dim(units=u, T=T_SCALAR)
+            except Exception as e_dim:
+                if not _in_pmutt(e_dim):
+                    raise
+                ctx.tag('agree:both-forms-raise')
+                ctx.refuse('both forms raise (%s / %s)' % (type(e_nd).__name__, type(e_dim).__name__))
+            else:
+                ctx.refuse('dimensionless twin raises %s; no expected value' % type(e_nd).__name__)
+            return None
+        factor = ref_R(unit, elements) * (T_SCALAR if energy else 1.0)
+        obs = dim(units=u, T=T_SCALAR)
+        ctx.evals()
+        ctx.close(clause, obs, nd * factor, sig, c, rtol=1e-10, atol=0.0, scale=(np.abs(nd) + 1.0) * abs(factor))
+        return float(nd)
+
+    cl = 'two objects in one process: each reports its own dimensionless value x its own R(unit) [x T] [/ molar mass]'
+    nA = relation(A, elA, cl)
+    nB = relation(B, elB, cl)
+    relation(A, elA, cl)
+    if nA is not None and nB is not None and (_differs(nA, nB) or (fam == 'per-mass' and elA != elB)):
+        ctx.nontrivial(('pair', how, c['a'], c['b'], q, form, unit))
+    # the object edited after creation (composition dict changed in place)
+    if elA and fam == 'per-mass':
+        first = sorted(A.elements)[0]
+        A.elements[first] += 1
+        elA2 = dict(elA)
+        elA2[first] += 1
+        ctx.tag('hist:elements-edited-in-place')
+        relation(A, elA2, 'an object edited after creation reports the value for its new content')
+        relation(B, elB, cl)
+
 
 def check_case(case, ctx):
+    if 'hist' in case:
+        ctx.run_case(evaluate_pair, case, signature_pair(case))
+        return
     # the signature is attached here so that an exception raised by pMuTT is recorded identically
     # during exploration and during replay
     case = dict(_base(kind_of(case['inst'])), **case)      # axes absent from an older record = default
@@ -672,12 +959,14 @@ def run_shard(shard, ctx):
         if idx % n != i:
             continue
         check_case(c, ctx)
-        if idx % 4099 == i:
+        if idx % 4099 == i or (kind == 'pair' and idx % 1009 == i):
             ctx.sample(c, limit=2)
 
 
 CLASS_OF = {'sm_gas': 'StatMech', 'sm_ads': 'StatMech', 'sm_ref': 'StatMech', 'sm_cov': 'StatMech',
-            'sm_noel': 'StatMech', 'sm_const': 'StatMech', 'nasa_gas': 'Nasa', 'nasa_surf': 'Nasa',
+            'sm_noel': 'StatMech', 'sm_const': 'StatMech', 'sm_int': 'StatMech', 'nasa_plain': 'Nasa',
+            'nasa9_plain': 'Nasa9', 'shomate_plain': 'Shomate', 'shomate_int': 'Shomate', 'rxn_int_ts': 'Reaction',
+            'nasa_gas': 'Nasa', 'nasa_surf': 'Nasa',
             'nasa_noel': 'Nasa', 'nasa9_gas': 'Nasa9', 'shomate_gas': 'Shomate', 'shomate_surf': 'Shomate',
             'rxn_sm_ts': 'Reaction', 'rxn_sm': 'Reaction', 'rxn_nasa': 'Reaction', 'rxn_mixed': 'Reaction',
             'rxn_bep': 'Reaction', 'chemkin_ts': 'ChemkinReaction', 'chemkin': 'ChemkinReaction',
